@@ -12,7 +12,7 @@ RULE = ('files written from random trees (1..25 nodes; root names sharing letter
         'option) with a non-root path')
 MODELLED = ['payload templates with content tokens', 'byte immutability under open mode r is HDF5 business (open modes come from the generated table)']
 ASSUMPTIONS = ['files written by emdfile from valid trees']
-NAMES = ['rot', 'origin', 'table', 'raw', 'a', 'b', 'ro', 't', 'array', 'o', 'root2', 'x y', 'é']
+NAMES = ['rot', 'origin', 'table', 'raw', 'a', 'b', 'ro', 't', 'array', 'o', 'root2', 'x y', 'é', 'e\u0301', 'peaks_5\u212b', '\u2126']
 
 
 def cases(seed, tier):
@@ -20,7 +20,7 @@ def cases(seed, tier):
     out = []
     n = 50 if tier == 'quick' else 1500
     for i in range(n):
-        rn = rng.choice(['root', 'r', 'to', 'rt'])
+        rn = rng.choice(['root', 'r', 'to', 'rt', 'e\u0301tude'])
         t = T.rand_tree(rng, rn, rng.choice([1, 3, 6, 10, 25]), names=NAMES, md_p=0.4)
         tops = [t]
         steps = [{'op': 'save', 'file': 0, 'top': 0, 'tp': [], 'mode': 'w', 'tree': True}]
